@@ -4,6 +4,7 @@ import (
 	"fmt"
 	"go/token"
 	"go/types"
+	"regexp"
 	"strconv"
 	"strings"
 
@@ -166,45 +167,103 @@ func (fa *Facts) feasibleBlocks(f *ssa.Function, H map[string]bool) map[*ssa.Bas
 	phiOK := fa.PhiFeasible(hl...)
 	reach := map[*ssa.BasicBlock]bool{f.Blocks[0]: true}
 	edgeOK := map[[2]*ssa.BasicBlock]bool{}
+	// pf: atoms about immutable values (parameters, pure string functions of them) that hold on every feasible way
+	// of reaching the block under H. They let an earlier test of the same value decide a later one ("cmd is not
+	// MAIL here, because the MAIL case returned under H").
+	pf := map[*ssa.BasicBlock]map[string]bool{f.Blocks[0]: {}}
+	withPF := func(b *ssa.BasicBlock) map[string]bool {
+		if len(pf[b]) == 0 {
+			return H
+		}
+		m := make(map[string]bool, len(H)+len(pf[b]))
+		for h := range H {
+			m[h] = true
+		}
+		for a := range pf[b] {
+			m[a] = true
+		}
+		return m
+	}
 	for changed := true; changed; {
 		changed = false
 		for _, b := range f.Blocks {
 			if !reach[b] {
 				continue
 			}
+			Hb := withPF(b)
 			for _, sc := range b.Succs {
 				k := [2]*ssa.BasicBlock{b, sc}
-				if edgeOK[k] {
-					continue
-				}
-				ok := true
-				for _, a := range fa.edgeAtoms(b, sc) {
-					if contradicts(a, H) {
-						ok = false
-					}
-				}
-				if ok && fa.boolCompareInfeasible(b, sc, H) {
-					ok = false
-				}
-				if ok && isPhiTestBlock(b) && b != f.Blocks[0] {
-					ok = false
-					for _, p := range b.Preds {
-						if reach[p] && edgeOK[[2]*ssa.BasicBlock{p, b}] && phiOK(b, p, sc) {
-							ok = true
+				atoms := fa.edgeAtoms(b, sc)
+				if !edgeOK[k] {
+					ok := true
+					for _, a := range atoms {
+						if contradicts(a, Hb) {
+							ok = false
 						}
 					}
-				}
-				if ok {
+					if ok && fa.boolCompareInfeasible(b, sc, Hb) {
+						ok = false
+					}
+					if ok && isPhiTestBlock(b) && b != f.Blocks[0] {
+						ok = false
+						for _, p := range b.Preds {
+							if reach[p] && edgeOK[[2]*ssa.BasicBlock{p, b}] && phiOK(b, p, sc) {
+								ok = true
+							}
+						}
+					}
+					if !ok {
+						continue
+					}
 					edgeOK[k] = true
 					changed = true
-					if !reach[sc] {
-						reach[sc] = true
+					reach[sc] = true
+				}
+				// propagate the immutable-value atoms along the feasible edge
+				out := map[string]bool{}
+				for a := range pf[b] {
+					out[a] = true
+				}
+				for _, a := range atoms {
+					if isImmutableAtom(a) {
+						out[a] = true
+					}
+				}
+				if sc == f.Blocks[0] {
+					out = map[string]bool{}
+				}
+				if cur, seen := pf[sc]; !seen {
+					pf[sc] = out
+					changed = true
+				} else {
+					for a := range cur {
+						if !out[a] {
+							delete(cur, a)
+							changed = true
+						}
 					}
 				}
 			}
 		}
 	}
 	return reach
+}
+
+var immutableAtomRest = regexp.MustCompile(`^[()=!<> 0-9-]*$`)
+var strLit = regexp.MustCompile(`"(?:[^"\\]|\\.)*"`)
+
+// isImmutableAtom: the atom speaks only about parameters, constants and pure string functions of them: it cannot be
+// invalidated by a store or a call between the test and a later use.
+func isImmutableAtom(a string) bool {
+	r := strLit.ReplaceAllString(a, "")
+	if !strings.Contains(r, "param") {
+		return false
+	}
+	for _, ok := range []string{"strings.ToUpper", "strings.ToLower", "strings.TrimSpace", "builtin:len"} {
+		r = strings.ReplaceAll(r, ok, "")
+	}
+	r = regexp.MustCompile(`param[0-9]+`).ReplaceAllString(r, "")
+	return immutableAtomRest.MatchString(r)
 }
 
 func (fa *Facts) infeasible(from, to *ssa.BasicBlock, H map[string]bool) bool {
